@@ -46,6 +46,7 @@ type seqGen struct {
 	maxfs int
 	nmax  int
 	enumC map[string][]int // cookies returned per dir fh
+	ext   Extents
 }
 
 func (g *seqGen) nextTag() int {
@@ -269,7 +270,7 @@ func (g *seqGen) limits() {
 }
 
 func (g *seqGen) dump(who string) {
-	d := DumpAPI(g.s.API, who)
+	d := DumpAPIx(g.s.API, who, g.ext)
 	g.t.Emit(d)
 }
 
@@ -433,8 +434,10 @@ func (g *seqGen) step() {
 		if g.r.Intn(15) == 0 {
 			c.Fh2 = g.anyHandle(2)
 		}
-		if src := g.find(d, c.Name); src != nil && src.kind == 2 && d2 != d && g.cfg.Avoid["rename-dir-cross"] {
-			c.Fh2 = c.Fh // keep directory renames inside one parent
+		if dd := g.byFh(c.Fh); dd != nil && c.Fh2 != c.Fh && g.cfg.Avoid["rename-dir-cross"] {
+			if src := g.find(dd, c.Name); src != nil && src.kind == 2 {
+				c.Fh2 = c.Fh // keep directory renames inside one parent
+			}
 		}
 		if g.cfg.Avoid["rename-to-dotnames"] && (c.Name2 == "." || c.Name2 == "..") {
 			c.Name2 = "zz"
@@ -470,6 +473,9 @@ func (g *seqGen) someCookie(fh string) int {
 func (g *seqGen) learn(c *Call) {
 	if c.St != "OK" {
 		return
+	}
+	if c.Proc == "WRITE" && !c.OffSat {
+		g.ext.Add(c.Fh, c.Off, c.RCount)
 	}
 	switch c.Proc {
 	case "CREATE", "MKDIR", "SYMLINK":
@@ -567,7 +573,7 @@ func RunSeq(cfg SeqCfg, t *Trace, seg int) error {
 	if err != nil {
 		return err
 	}
-	g := &seqGen{cfg: cfg, r: rand.New(rand.NewSource(int64(cfg.Seed))), s: s, t: t, enumC: map[string][]int{}}
+	g := &seqGen{cfg: cfg, r: rand.New(rand.NewSource(int64(cfg.Seed))), s: s, t: t, enumC: map[string][]int{}, ext: Extents{}}
 	g.root = &gobj{fh: RootFh(), kind: 2, alive: true}
 	t.Emit(Reset{Ev: "reset", Seg: seg, Driver: "seq/" + cfg.Profile, Seed: cfg.Seed, DiskSz: int(cfg.DiskSz), Unstable: cfg.Unstable, Root: g.root.fh})
 	g.limits()
@@ -614,5 +620,5 @@ func (g *seqGen) restart() {
 	}
 	g.s = s
 	s.Sequential = true
-	g.t.Emit(Restart{Ev: "restart", Kind: "clean", Dump: DumpAPI(s.API, "restarted")})
+	g.t.Emit(Restart{Ev: "restart", Kind: "clean", Dump: DumpAPIx(s.API, "restarted", g.ext)})
 }
